@@ -36,6 +36,9 @@ class ClassInfo:
 _NORMALISED = {}      # hash(source text) -> (normalised text, alpha mapping, canon report): the 20 checks of one tree share the work
 
 
+_CODE_DIGEST = []
+
+
 def _cache_file(text):
     """Optional on-disk cache of normalised sources (the 20 checks of one tree, and the self-test's variants, share the work). Keyed by the source text and by
     everything the normalisation depends on; a missing or unreadable cache only costs time."""
@@ -43,12 +46,17 @@ def _cache_file(text):
     here = os.path.dirname(os.path.abspath(__file__))
     h = hashlib.sha1()
     h.update(text.encode("utf-8", "replace"))
-    for f in ("canon.py", "alpha.py", "reference_nmfu.py", "localnames.json"):
-        try:
-            with open(os.path.join(here, f), "rb") as fh:
-                h.update(hashlib.sha1(fh.read()).digest())
-        except OSError:
-            pass
+    if not _CODE_DIGEST:
+        # (once per process, when the first source is normalised: a process keeps using the code it loaded, whatever happens to the files afterwards)
+        d = hashlib.sha1()
+        for f in ("canon.py", "alpha.py", "reference_nmfu.py", "localnames.json"):
+            try:
+                with open(os.path.join(here, f), "rb") as fh:
+                    d.update(hashlib.sha1(fh.read()).digest())
+            except OSError:
+                pass
+        _CODE_DIGEST.append(d.digest())
+    h.update(_CODE_DIGEST[0])
     d = os.environ.get("NMFULINT_CACHE", os.path.join(os.path.dirname(here), ".cache", "norm"))
     return os.path.join(d, h.hexdigest() + ".json")
 
